@@ -3009,10 +3009,10 @@ impl Server {
         match self.storage.ttl(db, key)? {
             Some(duration) => {
                 // Use ceiling calculation to match Redis behavior for TTL
-                let remaining_seconds: i64 = if duration.as_secs() == 0 && duration.subsec_millis() == 0 {
-                    -2 // Key expired
-                } else if duration.as_secs() == 0 && duration.subsec_millis() > 0 {
-                    1 // Less than 1 second remaining, round up to 1
+                let remaining_seconds: i64 = if duration.is_zero() {
+                    -2 // Deadline reached
+                } else if duration.as_secs() == 0 {
+                    1 // Less than 1 second remaining (the last millisecond included), round up to 1
                 } else {
                     // Use ceiling to ensure we don't underestimate remaining time
                     let secs = duration.as_secs();
